@@ -6,6 +6,7 @@ package evalfilter
 // containers.
 
 import (
+	"strconv"
 	"github.com/skx/evalfilter/v2/object"
 	"github.com/skx/evalfilter/v2/zzsv"
 )
@@ -17,6 +18,7 @@ func init() {
 	zzsv.Register("ZZ_C16_In", ZZ_C16_In)
 	zzsv.Register("ZZ_C16_Len", ZZ_C16_Len)
 	zzsv.Register("ZZ_C16_Iterate", ZZ_C16_Iterate)
+	zzsv.Register("ZZ_C16_LiteralContainers", ZZ_C16_LiteralContainers)
 }
 
 // zzChars builds a string of n characters; each is a symbolic ASCII byte or
@@ -372,4 +374,46 @@ func ZZ_C16_Iterate(sv *zzsv.T) {
 		sv.Assert("C16.iter.key", zzSame(sv, seenK[k], wantK[k]))
 		sv.Assert("C16.iter.value", zzSame(sv, seenV[k], wantV[k]))
 	}
+}
+
+// ZZ_C16_LiteralContainers: containers written as literals whose elements
+// or keys look alike but differ in type (a string next to a float, a string
+// next to an integer literal that is symbolic in [0, 70000] - the solver
+// makes the spellings coincide): elements keep their own types, alike-looking
+// keys stay distinct, membership and indexing go by type and value.
+func ZZ_C16_LiteralContainers(sv *zzsv.T) {
+	type tc struct {
+		src  string
+		want func(l int64) zv
+	}
+	str := []string{"70000", "65535", "65536"}[sv.Choice("digits", 3)]
+	sval, _ := strconv.ParseInt(str, 10, 64)
+	cases := []tc{
+		{"a = [\"1.5\", 1.5]; return type(a[0]) + type(a[1]);", func(l int64) zv { return zStr("stringfloat") }},
+		{"a = [1.5, \"1.5\"]; return type(a[0]) + type(a[1]);", func(l int64) zv { return zStr("floatstring") }},
+		{"h = {\"1.5\": \"s\", 1.5: \"f\"}; return h[1.5] + h[\"1.5\"] + string(len(h));", func(l int64) zv { return zStr("fs2") }},
+		{"h = {\"2.5\": \"s\"}; return h[2.5];", func(l int64) zv { return zNull() }},
+		{"return 3.5 in [\"3.5\"];", func(l int64) zv { return zBool(false) }},
+		{"return \"4.5\" in [4.5, 1, 2];", func(l int64) zv { return zBool(false) }},
+		{"a = [\"" + str + "\", 7001]; return type(a[0]) + type(a[1]);", func(l int64) zv { return zStr("stringinteger") }},
+		{"h = {\"" + str + "\": \"s\", 7001: \"i\"}; return h[7001] + string(len(h));", func(l int64) zv {
+			return zStr("i2")
+		}},
+		{"return 7001 in [\"" + str + "\"];", func(l int64) zv { return zBool(false) }},
+		{"return \"" + str + "\" in [7001, 1];", func(l int64) zv { return zBool(false) }},
+		{"n = 0; foreach k, v in {\"" + str + "\": 1, 7001: 2} { n = n + v; } return n;", func(l int64) zv { return zInt(3) }},
+	}
+	_ = sval
+	c := cases[sv.Choice("case", len(cases))]
+	sv.Note("script", c.src+"   (7001 is a symbolic literal)")
+	l := sv.Int64("L")
+	sv.Assume(l >= 0)
+	sv.Assume(l <= 70000)
+	prog, ok := zzParseWithLits(sv, c.src, []int64{l})
+	sv.Assume(ok)
+	e := New(c.src)
+	sv.Assume(zzPrepareAST(e, prog, sv.Choice("noopt", 2) == 0) == nil)
+	out, err := e.Execute(nil)
+	zzDescribe(sv, "result", out, err)
+	sv.Assert("C16.litcontainers", err == nil && zzSame(sv, out, c.want(l)))
 }
